@@ -77,6 +77,9 @@ type Net struct {
 	Intercept func(src, dst string, b []byte) bool
 	// OnPacket observes every datagram handed to the network by real code.
 	OnPacket func(src, dst string, b []byte)
+	// OnDeliver observes every datagram at the instant it is handed to the
+	// destination socket.
+	OnDeliver func(src, dst string, b []byte)
 
 	Conns []*ConnInfo
 }
@@ -413,11 +416,15 @@ func (n *Net) deliverDatagram(dstKey string, pk packet) {
 		return
 	}
 	dst.mu.Lock()
-	if !dst.closed {
+	closed := dst.closed
+	if !closed {
 		dst.q = append(dst.q, pk)
 		dst.cond.Broadcast()
 	}
 	dst.mu.Unlock()
+	if !closed && n.OnDeliver != nil {
+		n.OnDeliver(pk.from.String(), dstKey, pk.b)
+	}
 }
 
 // Inject delivers a datagram to dst right now as if sent by src (driven
@@ -902,6 +909,38 @@ func LookupIP(host string) ([]net.IP, error) {
 		ips = append(ips, net.ParseIP(h))
 	}
 	return ips, nil
+}
+
+// ResolveUDPAddr mirrors net.ResolveUDPAddr without ever touching the real
+// resolver: IP literals and names registered with SetName only.
+func ResolveUDPAddr(network, addr string) (*net.UDPAddr, error) {
+	host, port, err := net.SplitHostPort(addr)
+	if err != nil {
+		return nil, &net.AddrError{Err: err.Error(), Addr: addr}
+	}
+	p, err := strconv.Atoi(port)
+	if err != nil || p < 0 || p > 65535 {
+		return nil, &net.AddrError{Err: "invalid port", Addr: addr}
+	}
+	if host == "" {
+		return &net.UDPAddr{Port: p}, nil
+	}
+	if ip := net.ParseIP(host); ip != nil {
+		return &net.UDPAddr{IP: ip, Port: p}, nil
+	}
+	ips, err := LookupIP(host)
+	if err != nil || len(ips) == 0 {
+		return nil, &net.DNSError{Err: "no such host", Name: host, IsNotFound: true}
+	}
+	return &net.UDPAddr{IP: ips[0], Port: p}, nil
+}
+
+func ResolveTCPAddr(network, addr string) (*net.TCPAddr, error) {
+	u, err := ResolveUDPAddr(network, addr)
+	if err != nil {
+		return nil, err
+	}
+	return &net.TCPAddr{IP: u.IP, Port: u.Port}, nil
 }
 
 func DialContext(ctx context.Context, network, addr string) (net.Conn, error) {
